@@ -4,6 +4,7 @@
      map   lay=left|right|stride|tleft|tright it=<i8..u64> pat=[..] ext=[..] ctor=dyn|all [str=[..] perm=[..]]
      conv  it= sit= pat=[..] spat=[..] ext=[..]
      stride_members it= pat=[..] ext=[..] str=[..]
+     sub   it= pat=[..] ext=[..] keep=[0|1 ..]           (submdspan_extents with full_extent / index slices)
      span  n= se= op=first|last|subspan ct=0|1 off= cnt=
 -/
 import Tetl.Proto
@@ -217,6 +218,23 @@ def step (_ : Unit) (l : Line) : Unit × String :=
       let srev := (List.range rank).map (Spec.strideRight vals)
       out (fmtE m) (s!"ext={fmtNatList vals} rk={rank}/{rankDynamic pat} se={fmtList p} fwd={fmtNatList sfwd} rev={fmtNatList srev}"
         ++ s!" cmp=1{if rank == 0 then "-" else "0"}0")
+    | _, _, _, _ => bad
+  | "sub" =>
+    match (l.str? "it").bind parseIt, l.list? "pat", l.natList? "ext", l.natList? "keep" with
+    | some t, some p, some vals, some keepN =>
+      let pat := parsePat p
+      let keep := keepN.map (· != 0)
+      if pat.length ≠ vals.length || keep.length ≠ vals.length then bad else
+      let m : Except Err String := do
+        let e ← Ext.ofVals t pat (intsOf vals)
+        let r ← submdspanExtents t e keep
+        let exts ← (List.range r.pat.length).mapM (r.extent t)
+        let se : List Int := r.pat.map (fun o => match o with | some n => (n : Int) | none => -1)
+        pure s!"ext={fmtList exts} rk={r.pat.length}/{rankDynamic r.pat} se={fmtList se}"
+      -- spec: the kept dimensions, in order, with their static extents
+      let kv := ((keep.zip vals).filter (·.1)).map (·.2)
+      let kp := ((keep.zip p).filter (·.1)).map (·.2)
+      out (fmtE m) s!"ext={fmtNatList kv} rk={kv.length}/{(kp.filter (· < 0)).length} se={fmtList kp}"
     | _, _, _, _ => bad
   | "conv" =>
     match (l.str? "it").bind parseIt, (l.str? "sit").bind parseIt, l.list? "pat", l.list? "spat", l.natList? "ext" with
